@@ -451,6 +451,23 @@ fn shrinks_uncapped(sc: &Scenario, names: &[&str]) -> Vec<Scenario> {
             c.fault = FaultSpec::None;
             out.push(c);
             match f {
+                FaultSpec::SerExit(k) if *k > 0 => {
+                    for nk in [0, k / 2, k - 1] {
+                        let mut c = sc.clone();
+                        c.fault = FaultSpec::SerExit(nk);
+                        out.push(c);
+                    }
+                }
+                FaultSpec::SerEvery => {
+                    for k in 0..64 {
+                        let mut c = sc.clone();
+                        c.fault = FaultSpec::Ser(k);
+                        out.push(c);
+                        let mut c = sc.clone();
+                        c.fault = FaultSpec::SerExit(k);
+                        out.push(c);
+                    }
+                }
                 FaultSpec::Ser(k) if *k > 0 => {
                     for nk in [0, k / 2, k - 1] {
                         let mut c = sc.clone();
